@@ -87,7 +87,9 @@ Cin(id) == Get(cin, id, NoCin)
 
 \* st: none | live | closing | dead
 NoSin == [n |-> 0, items |-> <<>>, rst |-> FALSE, st |-> "none", must |-> 0, may |-> 0,
-          hdrs |-> {}, nresp |-> 0]
+          hdrs |-> {}, nresp |-> 0,
+          unk |-> FALSE,       \* a request for a method this server does not know has arrived under this id
+          refused |-> FALSE]   \* ... and has been answered
 Sin(id) == Get(sin, id, NoSin)
 
 Stuck == flt \cap {"cstuck", "sstuck"} # {} \/ parked > 0
@@ -118,6 +120,8 @@ MethOfKind(k) == CASE k = "unary" -> "/verif.Svc/Unary"
                    [] k = "bidi" -> "/verif.Svc/Bidi"
                    [] k = "cs" -> "/verif.Svc/CS"
                    [] k = "ss" -> "/verif.Svc/SS"
+                   [] k = "xbidi" -> "/verif.Svc/Nope"      \* a streaming call of a method the service does not have
+                   [] k = "ybidi" -> "/no.Such/Bidi"        \* ... of a service the server does not have
                    [] OTHER -> "?"
 
 -----------------------------------------------------------------------------
@@ -154,7 +158,7 @@ UCallBad(c, md, to) ==
 
 SOpen(c, kind, md, to) ==
   /\ c \notin DOMAIN calls
-  /\ kind \in {"bidi", "cs", "ss"}
+  /\ kind \in {"bidi", "cs", "ss", "xbidi", "ybidi"}
   /\ calls' = Put(calls, c, NewCall(kind, "", md, to))
   /\ UNCHANGED <<cfg, phase, byId, hi, gaps, cw, nSR, sw, nCR, cin, sin, preq, hnds, hOf,
                  flt, creg, sreg, base, pend, live, cregN, parked>>
@@ -276,8 +280,11 @@ ServerRead(env, n) ==
                             !.hdrs = IF env.h = 1 THEN @ \cup {<<env.meth, env.src, env.dst, env.rret>>} ELSE @]
      IN
      IF env.h = 0 \/ kind = "" \/ env.dst # cfg.srv
-       THEN \* ignored by the server: nothing may happen for it
-            /\ sin' = Put(sin, id, base0) /\ UNCHANGED preq
+       THEN \* ignored by the server: nothing may happen for it - except that a request naming a method the server
+            \* does not know may be refused (once per id; goat drops it silently)
+            /\ sin' = Put(sin, id, IF env.h = 1 /\ env.dst = cfg.srv /\ env.r = 0 /\ env.t = 0
+                                     THEN [base0 EXCEPT !.unk = TRUE] ELSE base0)
+            /\ UNCHANGED preq
      ELSE IF kind = "unary"
        THEN IF env.badmd = 0 /\ ~(env.b = 1 /\ env.pay = "raw!")
               THEN /\ preq' = Append(preq, [c |-> env.c, id |-> id, kind |-> "unary", pay |-> IF env.b = 1 THEN env.pay ELSE "-",
@@ -522,6 +529,13 @@ ServerWrite(env) ==
                  /\ G("md", MdF(env.tmd) = x.trl)
                  /\ hnds' = [hnds EXCEPT ![h].trW = TRUE, ![h].hdrW = TRUE]
         /\ UNCHANGED sin
+     \/ \* refusal of a request for a method the server does not know: one error status per id, nothing else, ever
+        /\ env.r = 0 /\ env.t = 1 /\ env.s = 1 /\ env.code # OK /\ env.b = 0
+        /\ env.h = 1 /\ KindOfMeth(env.meth) = ""
+        /\ Sin(env.id).unk /\ ~Sin(env.id).refused
+        /\ G("wire", <<env.meth, env.dst, env.src, env.ns>> \in Sin(env.id).hdrs)
+        /\ sin' = Put(sin, env.id, [Sin(env.id) EXCEPT !.refused = TRUE])
+        /\ UNCHANGED hnds
      \/ \* reply to a unary request with undecodable metadata: an error status, no handler
         /\ env.r = 0 /\ env.t = 1 /\ env.s = 1 /\ env.code # OK /\ env.b = 0
         /\ env.h = 1 /\ KindOfMeth(env.meth) = "unary"
